@@ -45,6 +45,8 @@ def gen_plain_env(rng):
     env["state"] = {"type": "rec", "feature": True, "k": rng.randint(1, 4)}
     if rng.random() < 0.4:
         env["reward"] = "default"       # built without reward=: the constructor's default object, shared process-wide
+    if rng.random() < 0.2:
+        env["state"]["twin_class"] = True   # a same-named observer class with fewer subscriptions was instanced earlier
     meta = {"kind": "plain", "late": None, "shock": None, "fold": rng.choice(sorted(env["folds"])) if env.get("folds") else None}
     grid = [core.parse_t(x) for x in env["grid"]]
     n = len(grid)
@@ -358,6 +360,15 @@ def execute(scenario):
                     {k: y.get(k) for k in keys} if isinstance(y, dict) else y), kind=kind or "length", field=keys[0] if keys else "?",
                     prefix=",".join(scenario["meta"]["prefix"][tag]))
                 break
+            if scenario["envs"][tag].get("state", {}).get("twin_class"):
+                probe("same_named_observer_class_instanced_earlier")
+                got_q = sum(1 for r in alone.sink.records if r.get("kind") == "cb" and r.get("obs") == "feature" and r.get("cls") == "EventNBBO")
+                sent_q = sum(1 for r in alone.sink.records if r.get("kind") == "cb" and r.get("obs") == "state" and r.get("cls") == "EventNBBO")
+                if sent_q and not got_q:
+                    violate("isolation", "environment {}: its feature subscribes to quotes and {} were delivered to the state, but the feature received none "
+                            "(a same-named class with fewer subscriptions was instanced earlier in the process)".format("ABC"[tag], sent_q),
+                            kind="subscription_lost", field="cb", envkind=scenario["meta"]["kinds"][tag])
+                    break
             # probes about what the prefix did
             for pk in scenario["meta"]["prefix"][tag]:
                 if pk == "malformed":
